@@ -222,6 +222,21 @@ def filter_case(case):
         before_head = head_of(repo)
         s_before = export(repo)
         cli = [a.replace('@AUX@', aux) for a in case['cli']]
+        if '--replace-text' in cli and case['id'] % 3 == 0 and not bare_repo:
+            # --no-data leaves no blob in the stream for the content rules to see: the combination is refused, wherever on the
+            # command line --no-data stands (first, last, in the middle); an accepted run would report success and rewrite nothing
+            probe = os.path.join(root, 'nodata-probe')
+            shutil.copytree(repo, probe, symlinks=True)
+            pos = [0, len(cli), cli.index('--replace-text') + 2][case['id'] // 3 % 3]
+            args_nd = cli[:pos] + ['--no-data'] + cli[pos:]
+            refs_nd = refs(probe)
+            rc_nd, _, _, _ = run_tool(probe, ['--force'] + extra_cli + args_nd)
+            count('no-data-next-to-replace-text')
+            if rc_nd == 0:
+                res['failures'].append(('C05', f'--no-data together with --replace-text was accepted (position {pos} of {len(cli)} arguments): the run reports success although no blob passes through the content rules'))
+            elif refs(probe) != refs_nd:
+                res['failures'].append(('C10', '--no-data together with --replace-text was refused but refs changed'))
+            shutil.rmtree(probe, ignore_errors=True)
         separate = case['mode'] != 'rules' and case['id'] % 6 == 3
         if separate:
             # rewrite into a second, empty repository; both given as relative paths from the common parent directory
